@@ -117,6 +117,8 @@ pub fn literal(sym: &str) -> Result<String, String> {
 #[derive(Serialize, Deserialize, Debug, PartialEq)] struct Nt { id: Id, name: Name }
 #[derive(Serialize, Deserialize, Debug, PartialEq)] struct SeqS { v: Vec<String>, z: u8 }
 #[derive(Serialize, Deserialize, Debug, PartialEq)] struct SeqN { w: Vec<u32> }
+#[derive(Serialize, Deserialize, Debug, PartialEq)] struct Seq2 { v: Vec<String>, w: Vec<u32> }
+#[derive(Serialize, Deserialize, Debug, PartialEq)] struct TupSeq { t: (u32, u32), w: Vec<u32> }
 type Map = BTreeMap<String, String>;
 
 /// a concretised field of a round-trip scenario: elements are strings (class tokens made concrete) or "#symbols"
@@ -196,6 +198,15 @@ impl Cat for SeqN {
     }
     fn project(&self) -> Proj { vec![("w".into(), self.w.iter().map(|x| x.to_string()).collect())] }
 }
+fn u32s(i: &In, f: &str) -> Result<Vec<u32>, String> { let mut w = vec![]; for e in &i.f(f)?.elems { w.push(int_sym!(u32, e.strip_prefix('#').unwrap_or(e))?) } Ok(w) }
+impl Cat for Seq2 {
+    fn build(i: &In) -> Result<Self, String> { Ok(Seq2 { v: i.f("v")?.elems.clone(), w: u32s(i, "w")? }) }
+    fn project(&self) -> Proj { vec![("v".into(), self.v.clone()), ("w".into(), self.w.iter().map(|x| x.to_string()).collect())] }
+}
+impl Cat for TupSeq {
+    fn build(i: &In) -> Result<Self, String> { let t = u32s(i, "t")?; if t.len() != 2 { return Err("a tuple of two".into()) } Ok(TupSeq { t: (t[0], t[1]), w: u32s(i, "w")? }) }
+    fn project(&self) -> Proj { vec![("t".into(), vec![self.t.0.to_string(), self.t.1.to_string()]), ("w".into(), self.w.iter().map(|x| x.to_string()).collect())] }
+}
 impl Cat for Map {
     fn build(i: &In) -> Result<Self, String> {
         let mut m = Map::new();
@@ -225,7 +236,7 @@ fn tool(msg: impl Into<String>) -> Value { json!({"kind": "tool-error", "msg": m
 macro_rules! dispatch { ($ty:expr, $f:ident ( $($a:expr),* )) => { match $ty {
     "Ints" => $f::<Ints>($($a),*), "Floats" => $f::<Floats>($($a),*), "Scal" => $f::<Scal>($($a),*), "Str1" => $f::<Str1>($($a),*),
     "Str2" => $f::<Str2>($($a),*), "Ch" => $f::<Ch>($($a),*), "Opt" => $f::<Opt>($($a),*), "OptEnd" => $f::<OptEnd>($($a),*),
-    "En" => $f::<En>($($a),*), "Nt" => $f::<Nt>($($a),*), "SeqS" => $f::<SeqS>($($a),*), "SeqN" => $f::<SeqN>($($a),*), "Map" => $f::<Map>($($a),*),
+    "En" => $f::<En>($($a),*), "Nt" => $f::<Nt>($($a),*), "SeqS" => $f::<SeqS>($($a),*), "SeqN" => $f::<SeqN>($($a),*), "Seq2" => $f::<Seq2>($($a),*), "TupSeq" => $f::<TupSeq>($($a),*), "Map" => $f::<Map>($($a),*),
     other => tool(format!("unknown type tag {other}")) } } }
 
 // ------------------------------------------------------------------ mode rt
@@ -348,9 +359,11 @@ const KINDS: &[(&str, &[(&str, &str)])] = &[
     ("Nt", &[("id", "ntu32"), ("name", "ntstr")]),
     ("SeqS", &[("v", "vecstr"), ("z", "u8")]),
     ("SeqN", &[("w", "vecu32")]),
+    ("Seq2", &[("v", "vecstr"), ("w", "vecu32")]),
+    ("TupSeq", &[("t", "tup2u32"), ("w", "vecu32")]),
 ];
 fn rnd_int(rng: &mut Rng, kind: &str) -> String {
-    let k = match kind { "ntu32" | "optu32" | "vecu32" => "u32", k => k };
+    let k = match kind { "ntu32" | "optu32" | "vecu32" | "tup2u32" => "u32", k => k };
     if rng.chance(1, 3) { return (*rng.pick(&["0", "1", "min", "max"])).to_string() }
     let r = rng.next();
     format!("={}", match k {
@@ -395,6 +408,7 @@ pub fn gen(rng: &mut Rng, _i: usize) -> Value {
                     "optu32" => if rng.chance(1, 3) { vec![] } else { vec![json!([format!("#{}", rnd_int(rng, k))])] },
                     "vecstr" => (0..rng.below(5)).map(|_| json!(rnd_toks(rng, 4))).collect(),
                     "vecu32" => (0..rng.below(5)).map(|_| json!([format!("#{}", rnd_int(rng, k))])).collect(),
+                    "tup2u32" => (0..2).map(|_| json!([format!("#{}", rnd_int(rng, k))])).collect(),
                     k => vec![json!([format!("#{}", rnd_sym(rng, k))])],
                 };
                 json!({"f": f, "k": k, "key": [], "v": v})
